@@ -12,6 +12,8 @@ computes provided the wrapper contracts hold (TRUSTED, listed under assumptions)
   R5  E.rfind(C).and_then(|i| E.get(..i))        -> vf_before_last(&E, C)
   R6  E.to_string()                              -> vf_to_string(E)
   R8  E.to_bits()                                -> vf_to_bits(E)                           (builder unit; f64 bit pattern as an uninterpreted view)
+  R9  V.binary_search_by_key(&K, |e| e.bytecode_offset) -> vf_bsearch_offset(&V, K)       (builder unit; std contract assumed, cross-checked by bounded Kani)
+  R10 V.retain(|&r| r < P)                       -> vf_retain_lt(&mut V, P)                (builder unit; Vec::retain == order-preserving filter, cross-checked by bounded Kani)
   R7  if let Some(&X) = E {..}                   -> if let Some(X) = vf_copied(E) {..}      (builder unit; Verus has no ref patterns)
 """
 import re
@@ -141,6 +143,23 @@ class Rewriter:
                             fn = 'vf_starts_with_char' if lit.kind == 'char' else 'vf_starts_with_str'
                             return (i, close, '%s(%s, %s)' % (fn, recv, lit.text))
                         raise RsxError('unsupported construct: starts_with with a non-literal pattern')
+                    if meth == 'binary_search_by_key' and self.on('R9'):
+                        # V.binary_search_by_key(&K, |e| e.bytecode_offset)  -> vf_bsearch_offset(&V, K)
+                        args = _args(self.src, j + 4, close - 1)
+                        if len(args) == 2 and toks[args[0][0]].text == '&':
+                            key = _text(self.src, args[0][0] + 1, args[0][1])
+                            clo = [x.text for x in toks[args[1][0]:args[1][1] + 1]]
+                            if len(clo) == 6 and clo[0] == '|' and clo[2] == '|' and clo[3] == clo[1] and clo[4] == '.' and clo[5] == 'bytecode_offset':
+                                self.stats['R9'] += 1
+                                return (i, close, 'vf_bsearch_offset(&%s, %s)' % (recv, key))
+                        raise RsxError('unsupported construct: binary_search_by_key not in the form V.binary_search_by_key(&K, |e| e.bytecode_offset)')
+                    if meth == 'retain' and self.on('R10'):
+                        # V.retain(|&r| r < P)  -> vf_retain_lt(&mut V, P)
+                        clo = [x.text for x in toks[j + 4:close]]
+                        if (len(clo) >= 7 and clo[0] == '|' and clo[1] == '&' and clo[3] == '|' and clo[4] == clo[2] and clo[5] == '<'):
+                            self.stats['R10'] += 1
+                            return (i, close, 'vf_retain_lt(&mut %s, %s)' % (recv, _text(self.src, j + 4 + 6, close - 1)))
+                        raise RsxError('unsupported construct: retain not in the form V.retain(|&r| r < P)')
                     if meth == 'to_bits' and self.on('R8') and close == j + 4:
                         self.stats['R8'] += 1
                         return (i, close, 'vf_to_bits(%s)' % recv)
